@@ -12,6 +12,7 @@ Definition ev_eqb (a b : ev) : bool :=
   match a, b with
   | EDo, EDo => true
   | EIdle, EIdle => true
+  | ECrash, ECrash => true
   | EResp i k, EResp j l => (i =? j) && kind_eqb k l
   | ETick x, ETick y => x =? y
   | EIssue t i n, EIssue u j m => (t =? u) && (i =? j) && (n =? m)
@@ -32,7 +33,7 @@ Definition obs_eqb (m i : obs) : bool :=
   match m, i with
   | Obs e1 p1 a1 g1 s1 _, Obs e2 p2 a2 g2 s2 _ =>
       list_eqb ev_eqb (filter observable e1) (filter observable e2)
-      && zlist_eqb p1 p2 && Bool.eqb a1 a2 && (g1 =? g2) && peer_eqb s1 s2
+      && zlist_eqb p1 p2 && list_eqb Bool.eqb a1 a2 && (g1 =? g2) && peer_eqb s1 s2
   end.
 
 (* tags of the timeout callbacks the implementation ran, in its order *)
@@ -56,15 +57,23 @@ Definition case := (list op * list obs)%type.
 Definition agree (c : case) : bool :=
   list_eqb obs_eqb (run (with_hints (fst c) (snd c))) (snd c).
 
-(* the first event of an operation's block is its marker *)
-Definition head_ok (o : op) (evs : list ev) : bool :=
+(* the first event of an operation's block is its marker; a response is processed by the live
+   incarnation c (the number of restarts so far): it addresses its id in that incarnation *)
+Definition head_ok (c : Z) (o : op) (evs : list ev) : bool :=
   match o, evs with
   | Do _, EDo :: _ => true
-  | Resp id k, EResp id' k' :: _ => (id =? id') && kind_eqb k k'
+  | Resp id k, EResp id' k' :: _ => (rkey MaxReqId c id =? id') && kind_eqb k k'
   | (RespNotify | RespNoSender _ | Advance _ | SetNext _ | Via _ | DirectNotify _), [EIdle] => true
   | (Tick _ | TickReal _), (ETick _ | EIdle) :: _ => true
+  | Crash, [ECrash] => true
   | _, _ => false
   end.
+
+Definition crashes_of (o : op) : Z := match o with Crash => 1 | _ => 0 end.
+
+(* the timer of the incarnation a pending key belongs to is armed *)
+Definition armed_key (arms : list bool) (k : Z) : bool :=
+  (0 <=? inc_of MaxReqId k) && nth (Z.to_nat (inc_of MaxReqId k)) arms false.
 
 (* after a scan at clock now nothing whose deadline lies before now is left *)
 Definition scan_post (a : ast) : bool :=
@@ -73,27 +82,28 @@ Definition scan_post (a : ast) : bool :=
   | None => true
   end.
 
-Fixpoint mon_from (a : ast) (ops : list op) (bs : list obs) : bool :=
+Fixpoint mon_from (c : Z) (a : ast) (ops : list op) (bs : list obs) : bool :=
   match ops, bs with
   | [], [] => true
-  | o :: r, Obs evs pend arm got peer onloop :: br =>
-      head_ok o evs &&
+  | o :: r, Obs evs pend arms got peer onloop :: br =>
+      head_ok c o evs &&
       match acc_from a evs with
       | Some a' =>
           settled a'
           && zlist_eqb (akeys (a_open a')) pend
-          && (isnil pend || arm)
+          && forallb (armed_key arms) pend
+          && (Z.of_nat (length arms) =? c + crashes_of o + 1)
           && scan_post a'
           && (got =? got_of o)
-          && peer_eqb peer (sent_of evs)
+          && peer_eqb peer (sent_of MaxReqId evs)
           && onloop
-          && mon_from a' r br
+          && mon_from (c + crashes_of o) a' r br
       | None => false
       end
   | _, _ => false
   end.
 
-Definition monitor (c : case) : bool := mon_from a0 (fst c) (snd c).
+Definition monitor (c : case) : bool := mon_from 0 a0 (fst c) (snd c).
 
 Definition disagreeing (cs : list case) : list Z := failing agree cs.
 Definition monitor_failing (cs : list case) : list Z := failing monitor cs.
